@@ -671,9 +671,11 @@ def rv_locals(rv):
     return out
 
 
-def path_conditions(fn, bb):
+def path_conditions(fn, bb, resolve=None):
     """For block bb: list of (switch_block, value) for each dominating switch all of whose
-    paths to bb leave through the same edge.  value is the matched constant (str) or 'otherwise'."""
+    paths to bb leave through the same edge.  value is the matched constant (str) or 'otherwise'.
+    resolve: optional function (fn, block) -> block that follows an edge through constant-decided joins
+    (the lowering of && and ||), so that an edge whose outcome is already decided does not count as leading to bb."""
     out = []
     for (sb, st) in fn.switches():
         if sb == bb or not fn.dominates(sb, bb):
@@ -681,7 +683,10 @@ def path_conditions(fn, bb):
         edges = []
         seen_t = set()
         for v, tb in st["t"] + [["otherwise", st["o"]]]:
-            if bb in fn.reach_from([tb], avoid={sb}):
+            start = tb
+            if resolve is not None and tb != bb:
+                start = resolve(fn, tb)
+            if bb in fn.reach_from([start], avoid={sb}):
                 edges.append(v)
         if len(edges) == 1:
             out.append((sb, edges[0]))
